@@ -22,6 +22,10 @@
     `lonlat_of_xyz_agree` (range + same direction incl. pole snap), periodicity
     (`xyz_mod_two_pi`, `dirDeg_wrap180`, `deg2rad_rad2deg`), `deg_range` (any floor field, ℚ, ℝ),
     `sameDir_dot` (the snap costs at most arccos(1 − tol)).
+  * full-domain round trip with the code's convention: `lonlat_of_xyz_of_lonlat` (any real longitude,
+    lat ∈ [-90,90]: `(wrap180 lon, lat)` outside the snap cap, `(0, ±90)` inside), `_norm`,
+    `lonlat_roundtrip_id`; the seam `wrap180_of_mem`, `wrap180_seam` (+180 ↦ -180), `wrap180_periodic`;
+    which inputs snap: `snap_branch_iff`, `snap_cap_iff_lat` (|φ| > arcsin (1 − tol)).
   * the driver's Boolean checkers decide the Props: `sameDirB_iff`, `rangeB_iff`, `closeB_iff`.
   * counterexamples for the snapshot: `asis_node_lon_out_of_range`, `asis_centre_degrees_as_radians`,
     `asis_centre_nonunit`, `asis_provenance_fails`.
@@ -32,6 +36,7 @@
 import UxVerif.Lemmas.Coords
 import Mathlib.Data.List.Forall2
 import Mathlib.Algebra.Order.Floor.Ring
+import Mathlib.Analysis.SpecialFunctions.Trigonometric.Angle
 
 namespace UxVerif.C04
 open UxVerif.Coords UxVerif.CoordsR List
@@ -1064,5 +1069,216 @@ example : dot (normalizeV (R tol ct) (meanV (R tol ct) [⟨1, 0, 0⟩, ⟨0, 1, 
 example : SameDir (1 / 100000000) ⟨0, 0, 1⟩ ⟨0, 0, 1⟩ := Or.inl rfl
 example : sameDirB (R tol ct) 0 (1 / 2) ⟨0, 0, 1⟩ ⟨3 / 5, 0, 4 / 5⟩ = true :=
   (sameDirB_iff _ _ _).mpr (Or.inr (Or.inl ⟨by norm_num, rfl⟩))
+
+/-! ### the ±180 seam: which representative the code's wrap returns -/
+
+theorem wrap180_periodic (d : ℝ) (m : ℤ) : wrap180 (R tol ct) (d - m * 360) = wrap180 (R tol ct) d := by
+  rw [wrap180_eq, wrap180_eq]
+  have : (d - m * 360 + 180) / 360 = (d + 180) / 360 - m := by field_simp; ring
+  rw [this, Int.floor_sub_intCast]
+  push_cast; ring
+
+/-- inside [-180, 180) the wrap is the identity -/
+theorem wrap180_of_mem (d : ℝ) (h1 : -180 ≤ d) (h2 : d < 180) : wrap180 (R tol ct) d = d := by
+  rw [wrap180_eq]
+  have : ⌊(d + 180) / 360⌋ = 0 := by
+    rw [Int.floor_eq_iff]
+    constructor
+    · simp only [Int.cast_zero]; apply div_nonneg <;> linarith
+    · simp only [Int.cast_zero, zero_add]; rw [div_lt_one (by norm_num)]; linarith
+  rw [this]; simp
+
+/-- the seam convention: +180 is reported as -180 -/
+theorem wrap180_seam : wrap180 (R tol ct) 180 = -180 := by
+  rw [wrap180_eq]
+  have : ⌊((180 : ℝ) + 180) / 360⌋ = 1 := by rw [Int.floor_eq_iff]; norm_num
+  rw [this]; norm_num
+
+example : wrap180 (R tol ct) (190 - (1 : ℤ) * 360) = wrap180 (R tol ct) 190 := wrap180_periodic 190 1
+example : wrap180 (R tol ct) (-180) = -180 := wrap180_of_mem _ (by norm_num) (by norm_num)
+
+
+/-! ### exactly which inputs take the pole-snap branch -/
+
+/-- `_xyz_to_lonlat_rad` takes the snap branch (longitude 0, latitude ±π/2) exactly when
+    `|z| > 1 − ERROR_TOLERANCE`; otherwise it returns `(arctan2(y, x) mod 2π, arcsin z)` -/
+theorem snap_branch_iff (h0 : 0 < tol) (v : V3 ℝ) (hu : normSq v = 1) :
+    (lonLatRadOfXyz (R tol ct) false v = (⟨0⟩, ⟨signK (R tol ct) v.z * Real.pi / 2⟩) ∧ 1 - tol < |v.z|) ∨
+    (lonLatRadOfXyz (R tol ct) false v
+        = (⟨(R tol ct).fmod (Complex.arg ⟨v.x, v.y⟩) (2 * (R tol ct).pi)⟩, ⟨Real.arcsin v.z⟩) ∧
+      |v.z| ≤ 1 - tol ∧ v.x ^ 2 + v.y ^ 2 ≠ 0) := by
+  by_cases hm : 1 - tol < |v.z|
+  · exact Or.inl ⟨lonLatRad_mask v hm, hm⟩
+  · refine Or.inr ⟨lonLatRad_nomask v hm, not_lt.mp hm, ?_⟩
+    have hu' : v.x * v.x + v.y * v.y + v.z * v.z = 1 := hu
+    have hz : |v.z| < 1 := by have := not_lt.mp hm; linarith
+    have : v.z ^ 2 < 1 := (sq_lt_one_iff_abs_lt_one v.z).mpr hz
+    intro h; nlinarith
+
+/-- in terms of the latitude φ ∈ [-π/2, π/2] of the point: the snap cap is `|φ| > arcsin (1 − tol)`,
+    i.e. within `arccos (1 − tol)` of a pole -/
+theorem snap_cap_iff_lat (h0 : 0 < tol) (h1 : tol < 1) (φ : ℝ) (hlo : -(Real.pi / 2) ≤ φ) (hhi : φ ≤ Real.pi / 2) :
+    1 - tol < |Real.sin φ| ↔ Real.arcsin (1 - tol) < |φ| := by
+  have habs : |Real.sin φ| = Real.sin |φ| := by
+    rcases le_total 0 φ with h | h
+    · rw [abs_of_nonneg h, abs_of_nonneg (Real.sin_nonneg_of_nonneg_of_le_pi h (by linarith [Real.pi_pos]))]
+    · rw [abs_of_nonpos h, Real.sin_neg, abs_of_nonpos (Real.sin_nonpos_of_nonpos_of_neg_pi_le h (by linarith [Real.pi_pos]))]
+  have hmem : |φ| ∈ Set.Icc (-(Real.pi / 2)) (Real.pi / 2) :=
+    ⟨by linarith [abs_nonneg φ, Real.pi_pos], abs_le.mpr ⟨hlo, hhi⟩⟩
+  rw [habs, Real.arcsin_lt_iff_lt_sin ⟨by linarith, by linarith⟩ hmem]
+
+/-! ### lon/lat → xyz → lon/lat on the FULL domain (any real longitude, latitude in [-90, 90]) -/
+
+theorem cos_sin_eq_exists_int {a b : ℝ} (hc : Real.cos a = Real.cos b) (hs : Real.sin a = Real.sin b) :
+    ∃ k : ℤ, a = b + k * (2 * Real.pi) := by
+  obtain ⟨k, hk⟩ := Real.Angle.angle_eq_iff_two_pi_dvd_sub.mp (Real.Angle.cos_sin_inj hc hs)
+  exact ⟨k, by linarith⟩
+
+/-- **round trip with the convention the code uses.**  For EVERY (lon, lat) in degrees with
+    lat ∈ [-90, 90] — any real longitude: both conventions, the ±180 seam, the poles —
+    `_xyz_to_lonlat_deg(_lonlat_rad_to_xyz(deg2rad lon, deg2rad lat))` is
+    * `(0, ±90)` when the point lies in the snap cap (the supplied longitude is forgotten),
+    * `(wrap180 lon, lat)` otherwise: the SAME latitude and the representative of the longitude in
+      [-180, 180) (so lon itself when -180 ≤ lon < 180, and -180 for lon = 180). -/
+theorem lonlat_of_xyz_of_lonlat (h0 : 0 < tol) (h1 : tol < 1) (p : Deg ℝ × Deg ℝ)
+    (hlo : -90 ≤ p.2.val) (hhi : p.2.val ≤ 90) :
+    lonLatDegOfXyz (R tol ct) false (dirDeg (R tol ct) p) =
+      if 1 - tol < |Real.sin (p.2.val * (Real.pi / 180))| then
+        ((⟨0⟩ : Deg ℝ), (⟨if 0 < p.2.val then 90 else -90⟩ : Deg ℝ))
+      else ((⟨wrap180 (R tol ct) p.1.val⟩ : Deg ℝ), p.2) := by
+  obtain ⟨⟨lon⟩, ⟨lat⟩⟩ := p
+  simp only at hlo hhi ⊢
+  have hpi := Real.pi_pos
+  set φ := lat * (Real.pi / 180) with hφ
+  set lam := lon * (Real.pi / 180) with hlam
+  have hφlo : -(Real.pi / 2) ≤ φ := by rw [hφ]; nlinarith
+  have hφhi : φ ≤ Real.pi / 2 := by rw [hφ]; nlinarith
+  have hv : dirDeg (R tol ct) (⟨lon⟩, ⟨lat⟩)
+      = ⟨Real.cos lam * Real.cos φ, Real.sin lam * Real.cos φ, Real.sin φ⟩ := rfl
+  have hu : normSq (dirDeg (R tol ct) (⟨lon⟩, ⟨lat⟩)) = 1 := CoordsR.xyz_unit _ _
+  rw [hv] at hu ⊢
+  by_cases hm : 1 - tol < |Real.sin φ|
+  · rw [if_pos hm]
+    have hz0 : Real.sin φ ≠ 0 := by intro h; rw [h, abs_zero] at hm; linarith
+    have e := lonLatRad_mask (tol := tol) (ct := ct)
+      (⟨Real.cos lam * Real.cos φ, Real.sin lam * Real.cos φ, Real.sin φ⟩ : V3 ℝ) hm
+    simp only [lonLatDegOfXyz, e, rad2deg]
+    have hw : wrap180 (R tol ct) (0 * (180 / (R tol ct).pi)) = 0 := by rw [zero_mul, wrap180_zero]
+    rw [hw]
+    by_cases hpos : 0 < lat
+    · have hφpos : 0 < φ := by rw [hφ]; positivity
+      have hs : 0 < Real.sin φ := Real.sin_pos_of_pos_of_lt_pi hφpos (by linarith)
+      have hsg : signK (R tol ct) (Real.sin φ) = 1 := by simp [signK, R, hs]
+      rw [hsg, if_pos hpos]
+      have : (1 * Real.pi / 2 * (180 / (R tol ct).pi)) = 90 := by simp only [R]; field_simp; norm_num
+      rw [this]
+    · have hφnp : φ ≤ 0 := by rw [hφ]; have := not_lt.mp hpos; nlinarith
+      have hφneg : φ < 0 := by
+        rcases lt_or_eq_of_le hφnp with h | h
+        · exact h
+        · exfalso; apply hz0; rw [h, Real.sin_zero]
+      have hs : Real.sin φ < 0 := Real.sin_neg_of_neg_of_neg_pi_lt hφneg (by linarith)
+      have hsg : signK (R tol ct) (Real.sin φ) = -1 := by simp [signK, R, hs, not_lt.mpr hs.le]
+      rw [hsg, if_neg hpos]
+      have : (-1 * Real.pi / 2 * (180 / (R tol ct).pi)) = -90 := by simp only [R]; field_simp; norm_num
+      rw [this]
+  · rw [if_neg hm]
+    have hz : |Real.sin φ| < 1 := by have := not_lt.mp hm; linarith
+    -- cos φ > 0: φ is not ±π/2
+    have hcos : 0 < Real.cos φ := by
+      apply Real.cos_pos_of_mem_Ioo
+      constructor
+      · rcases lt_or_eq_of_le hφlo with h | h
+        · exact h
+        · exfalso; rw [← h, Real.sin_neg, Real.sin_pi_div_two] at hz; norm_num at hz
+      · rcases lt_or_eq_of_le hφhi with h | h
+        · exact h
+        · exfalso; rw [h, Real.sin_pi_div_two] at hz; norm_num at hz
+    have hxy : (Real.cos lam * Real.cos φ) ^ 2 + (Real.sin lam * Real.cos φ) ^ 2 ≠ 0 := by
+      have : (Real.cos lam * Real.cos φ) ^ 2 + (Real.sin lam * Real.cos φ) ^ 2 = Real.cos φ ^ 2 := by
+        have := Real.sin_sq_add_cos_sq lam; nlinarith
+      rw [this]; positivity
+    have hasin : Real.arcsin (Real.sin φ) = φ := Real.arcsin_sin hφlo hφhi
+    -- the exact round trip xyz → (arg, arcsin) → xyz, read component-wise
+    have hrt := CoordsR.xyz_of_lonlat_of_xyz (tol := tol) (ct := ct)
+      ⟨Real.cos lam * Real.cos φ, Real.sin lam * Real.cos φ, Real.sin φ⟩ hu hxy
+    simp only [xyzOfLonLatRad, R, hasin] at hrt
+    have hx := congrArg V3.x hrt
+    have hy := congrArg V3.y hrt
+    simp only at hx hy
+    set α := Complex.arg ⟨Real.cos lam * Real.cos φ, Real.sin lam * Real.cos φ⟩ with hα
+    have hc : Real.cos α = Real.cos lam := mul_right_cancel₀ hcos.ne' hx
+    have hs : Real.sin α = Real.sin lam := mul_right_cancel₀ hcos.ne' hy
+    obtain ⟨k, hk⟩ := cos_sin_eq_exists_int hc hs
+    have e := lonLatRad_nomask (tol := tol) (ct := ct)
+      (⟨Real.cos lam * Real.cos φ, Real.sin lam * Real.cos φ, Real.sin φ⟩ : V3 ℝ) hm
+    simp only [lonLatDegOfXyz, e, rad2deg, hasin]
+    have hlat : φ * (180 / (R tol ct).pi) = lat := by
+      simp only [R, hφ]; field_simp
+    have hlon : (R tol ct).fmod α (2 * (R tol ct).pi) * (180 / (R tol ct).pi)
+        = lon - ((⌊α / (2 * Real.pi)⌋ - k : ℤ) : ℝ) * 360 := by
+      rw [fmod_def]
+      simp only [R]
+      rw [hk, hlam]
+      push_cast
+      field_simp
+      ring
+    rw [hlat, hlon, wrap180_periodic]
+
+
+/-- the same with `normalize=True` (the default of `_xyz_to_lonlat_deg`): the derived vector is
+    unit, so the double normalisation changes nothing -/
+theorem lonlat_of_xyz_of_lonlat_norm (h0 : 0 < tol) (h1 : tol < 1) (p : Deg ℝ × Deg ℝ)
+    (hlo : -90 ≤ p.2.val) (hhi : p.2.val ≤ 90) :
+    lonLatDegOfXyz (R tol ct) true (dirDeg (R tol ct) p) =
+      if 1 - tol < |Real.sin (p.2.val * (Real.pi / 180))| then
+        ((⟨0⟩ : Deg ℝ), (⟨if 0 < p.2.val then 90 else -90⟩ : Deg ℝ))
+      else ((⟨wrap180 (R tol ct) p.1.val⟩ : Deg ℝ), p.2) := by
+  have hu : normSq (dirDeg (R tol ct) p) = 1 := CoordsR.xyz_unit _ _
+  rw [lonLatDeg_norm _ (by rw [hu]; norm_num), normalize_of_unit _ hu]
+  exact lonlat_of_xyz_of_lonlat h0 h1 p hlo hhi
+
+/-- away from the caps and with the longitude already in [-180, 180) the round trip is the identity -/
+theorem lonlat_roundtrip_id (h0 : 0 < tol) (h1 : tol < 1) (p : Deg ℝ × Deg ℝ)
+    (hlo : -90 ≤ p.2.val) (hhi : p.2.val ≤ 90) (h180 : -180 ≤ p.1.val) (h180' : p.1.val < 180)
+    (hcap : |Real.sin (p.2.val * (Real.pi / 180))| ≤ 1 - tol) :
+    lonLatDegOfXyz (R tol ct) false (dirDeg (R tol ct) p) = p := by
+  rw [lonlat_of_xyz_of_lonlat h0 h1 p hlo hhi, if_neg (not_lt.mpr hcap), wrap180_of_mem _ h180 h180']
+
+/-! non-vacuity: the seam, a pole given with a non-zero longitude, the 0..360 convention -/
+
+example (h0 : 0 < tol) (h1 : tol < 1) :
+    lonLatDegOfXyz (R tol ct) false (dirDeg (R tol ct) (⟨180⟩, ⟨0⟩)) = (⟨-180⟩, ⟨0⟩) := by
+  rw [lonlat_of_xyz_of_lonlat h0 h1 _ (by norm_num) (by norm_num)]
+  have : ¬ 1 - tol < |Real.sin ((0 : ℝ) * (Real.pi / 180))| := by simp; linarith
+  rw [if_neg this, wrap180_seam]
+
+example (h0 : 0 < tol) (h1 : tol < 1) :
+    lonLatDegOfXyz (R tol ct) false (dirDeg (R tol ct) (⟨37⟩, ⟨90⟩)) = (⟨0⟩, ⟨90⟩) := by
+  rw [lonlat_of_xyz_of_lonlat h0 h1 _ (by norm_num) (by norm_num)]
+  have e : (90 : ℝ) * (Real.pi / 180) = Real.pi / 2 := by ring
+  have : 1 - tol < |Real.sin ((90 : ℝ) * (Real.pi / 180))| := by
+    rw [e, Real.sin_pi_div_two, abs_one]; linarith
+  rw [if_pos this]; norm_num
+
+example (h0 : 0 < tol) (h1 : tol < 1) :
+    lonLatDegOfXyz (R tol ct) false (dirDeg (R tol ct) (⟨270⟩, ⟨0⟩)) = (⟨-90⟩, ⟨0⟩) := by
+  rw [lonlat_of_xyz_of_lonlat h0 h1 _ (by norm_num) (by norm_num)]
+  have : ¬ 1 - tol < |Real.sin ((0 : ℝ) * (Real.pi / 180))| := by simp; linarith
+  rw [if_neg this]
+  have : wrap180 (R tol ct) 270 = wrap180 (R tol ct) (-90) := by
+    have := wrap180_periodic (tol := tol) (ct := ct) (-90) (-1)
+    rw [← this]; norm_num
+  rw [this, wrap180_of_mem _ (by norm_num) (by norm_num)]
+
+example (h0 : 0 < tol) (h1 : tol < 1) : 1 - tol < |Real.sin (Real.pi / 2)| ↔ Real.arcsin (1 - tol) < |Real.pi / 2| :=
+  snap_cap_iff_lat h0 h1 _ (by linarith [Real.pi_pos]) le_rfl
+
+example (h0 : 0 < tol) (h1 : tol < 1) :
+    lonLatRadOfXyz (R tol ct) false ⟨1, 0, 0⟩
+      = (⟨(R tol ct).fmod (Complex.arg ⟨1, 0⟩) (2 * (R tol ct).pi)⟩, ⟨Real.arcsin 0⟩) := by
+  rcases snap_branch_iff (ct := ct) h0 ⟨1, 0, 0⟩ (by norm_num [normSq, dot]) with ⟨_, h⟩ | ⟨h, _⟩
+  · simp at h; linarith
+  · exact h
 
 end UxVerif.C04
